@@ -41,7 +41,7 @@ CHECKS = {
         "level": "exploration",
         "phases": [
             plain("sizes", "TestSizes",
-                  {"shards": 9, "timeout": 600},
+                  {"shards": 12, "timeout": 600},
                   {"shards": 16, "timeout": 3000}),
         ],
     },
